@@ -194,6 +194,11 @@ func (e *Engine) vocab(short string) (handler, bool) {
 		}, true
 	case "vGhost":
 		return func(c *frame, f *ssa.Function, a []value) value { return nil }, true
+	case "vTimersEager":
+		return func(c *frame, f *ssa.Function, a []value) value {
+			e.sched.eager = a[0].(*Term).K && a[0].(*Term).B
+			return nil
+		}, true
 	case "vSetUnwind":
 		return func(c *frame, f *ssa.Function, a []value) value {
 			if n, ok := termConstInt(a[0]); ok {
